@@ -26,7 +26,8 @@ THEOREMS = [
     "C10.fragmentation_eq", "C10.population_rows", "Represent.wf_represented",
     # refinement: the definitions generated from lmeasure.py / tree.py / node.py on this run compute the quantities of their definitions
     "RefineLm.branchOrder_refines", "RefineLm.nStems_refines", "RefineLm.getTips_refines", "RefineLm.nTips_refines", "RefineLm.nBifs_refines",
-    "RefineLm.nBranch_refines", "RefineLm.fragmentation_refines", "RefineLm.node_subtree_eq", "RefineLm.terminalDegree_reduces",
+    "RefineLm.nBranch_refines", "RefineLm.fragmentation_refines", "RefineLm.node_subtree_eq", "RefineLm.terminalDegree_reduces", "RefineLm.subtree_bound",
+    "RefineLm.kids_closed", "RefineLm.terminalDegree_refines", "C10.generated_terminal_degree", "C10.generated_terminal_degree_wf",
     "C10.generated_branch_order", "C10.generated_branch_order_eq_model", "C10.generated_n_stems", "C10.generated_n_tips", "C10.generated_n_tips_tree",
     "C10.generated_n_bifs", "C10.generated_n_branch", "C10.generated_fragmentation",
 ]
